@@ -1,2 +1,93 @@
-(* C08 placeholder *)
-From Prov Require Import World.
+(* C08 — unified() merges exactly the records sharing an identifier.
+   Proved here: the source is left unchanged, the result is a new document, and
+   unification is the identity when no two records share kind and identifier.  The
+   merge specification itself (attribute union per group, conflict iff raise) is
+   stated and, so far, established by the correspondence run and the independent
+   merge oracle of this check (partial). *)
+From Coq Require Import String List Arith ZArith.
+From Prov Require Import Str Sexp Tables Nsm Values Record World Interp InterpProofs.
+Import ListNotations.
+Open Scope string_scope.
+
+(* unified() never changes any existing document — neither content nor namespaces —
+   whether it returns or raises *)
+Theorem C08_source_unchanged : forall w d t,
+  d < length (wdocs w) ->
+  nth_error (wdocs (fst (step w (OUnified t)))) d = nth_error (wdocs w) d.
+Proof. intros w d t L. apply step_frame; [exact L | cbn [target]; discriminate]. Qed.
+Print Assumptions C08_source_unchanged.
+
+(* groups of one: records that share neither kind nor identifier with another record
+   are emitted as they are, in order *)
+Lemma unify_walk_singletons : forall fuel c m all todo seen,
+  length todo < fuel ->
+  (forall r, In r todo -> rid r <> None -> filter (same_group r) all = [r]) ->
+  (forall r s, In r todo -> In s seen -> same_group r s = false) ->
+  unify_walk fuel c m all todo seen = Done m todo.
+Proof.
+  induction fuel as [|f IH]; intros c m all todo seen L S1 S2; [inversion L|].
+  destruct todo as [|r rest]; [reflexivity|]. cbn [unify_walk].
+  assert (REST : unify_walk f c m all rest seen = Done m rest).
+  { apply IH; [cbn in L; apply Nat.succ_lt_mono; exact L | |].
+    - intros x Hx. apply S1. right; exact Hx.
+    - intros x s Hx Hs. apply S2; [right; exact Hx | exact Hs]. }
+  destruct (rid r) eqn:ER.
+  - assert (NS : existsb (same_group r) seen = false).
+    { destruct (existsb (same_group r) seen) eqn:E; [|reflexivity].
+      apply existsb_exists in E. destruct E as [s [Hs Es]].
+      rewrite (S2 r s (or_introl eq_refl) Hs) in Es. discriminate. }
+    rewrite NS. rewrite (S1 r (or_introl eq_refl)) by (rewrite ER; discriminate).
+    rewrite REST. reflexivity.
+  - rewrite REST. reflexivity.
+Qed.
+
+Theorem C08_no_reuse_identity : forall ft b,
+  (forall r, In r (brecs b) -> rid r <> None -> filter (same_group r) (brecs b) = [r]) ->
+  unified_records ft b = OK (brecs b).
+Proof.
+  intros ft b S. unfold unified_records.
+  rewrite unify_walk_singletons; [reflexivity | auto | exact S | intros r s _ []].
+Qed.
+Print Assumptions C08_no_reuse_identity.
+
+(* the full statement, not yet proved *)
+Definition C08_spec_statement : Prop :=
+  forall ft b u, unified_records ft b = OK u ->
+    (* every (kind, identifier) group of b is one record of u with the union of the
+       attribute sets; anonymous records are kept; first-occurrence order *)
+    map (fun r => (rkind r, option_map qn_uri (rid r))) u =
+    map (fun r => (rkind r, option_map qn_uri (rid r)))
+        (fst (fold_left (fun acc r =>
+                 match rid r with
+                 | None => ((fst acc ++ [r])%list, snd acc)
+                 | Some _ => if existsb (same_group r) (snd acc) then acc
+                             else ((fst acc ++ [r])%list, r :: snd acc)
+                 end) (brecs b) ([], []))).
+
+(* merging computes: two entities and an agent on one identifier, an anonymous
+   relation; the agent survives (repaired grouping), attribute sets are united *)
+Definition exq l := mkQn (mkNs "ex" "http://e/") l.
+Definition ex_b : bundle :=
+  mkB None nsm_init
+      [mkRec "Entity" (Some (exq "x")) [(exq "k", [VInt 1%Z])];
+       mkRec "Agent" (Some (exq "x")) [(exq "k", [VInt 9%Z])];
+       mkRec "Usage" None [(prov_qn "activity", [VQn (exq "a")])];
+       mkRec "Entity" (Some (exq "x")) [(exq "k", [VInt 2%Z]); (exq "j", [VStr "s"])]] [].
+Example C08_merge_computes :
+  match unified_records [] ex_b with
+  | OK u => map (fun r => (rkind r, option_map qn_uri (rid r), map (fun kv => (qn_local (fst kv), snd kv)) (rattrs r))) u
+  | _ => []
+  end =
+  [("Entity", Some "http://e/x", [("k", [VInt 1%Z; VInt 2%Z]); ("j", [VStr "s"])]);
+   ("Agent", Some "http://e/x", [("k", [VInt 9%Z])]);
+   ("Usage", None, [("activity", [VQn (exq "a")])])].
+Proof. vm_compute. reflexivity. Qed.
+
+(* a conflict on a formal attribute raises ProvException *)
+Example C08_conflict_raises :
+  unified_records []
+    (mkB None nsm_init
+       [mkRec "Generation" (Some (exq "g")) [(prov_qn "entity", [VQn (exq "e1")])];
+        mkRec "Generation" (Some (exq "g")) [(prov_qn "entity", [VQn (exq "e2")])]] [])
+  = Raise EProv.
+Proof. vm_compute. reflexivity. Qed.
